@@ -709,6 +709,7 @@ package gtfs
 //@   props C05 C07
 //@   requires 0 <= i && i < len(result.Trips) && 0 <= j && j < len(result.Trips)
 //@   ensures ret == result.Trips[i].ID.Less(result.Trips[j].ID)
+//@   comparator result.Trips[i].ID.Less(result.Trips[j].ID)
 //@   assigns nothing
 
 //@ func ParseRealtime$2
@@ -722,6 +723,8 @@ package gtfs
 //@   ensures [error-or-result] (result.1 == nil) == (result.0 != nil)
 //@   ensures [error-iff-not-protobuf] result.1 == nil <==> pbOK(bytesOf(content))
 //@   ensures [fresh-result] result.0 != nil ==> fresh(result.0)
+//@   ensures [trips-sorted-by-identifier] result.0 != nil ==> (forall a int, b int :: 0 <= a && a < b && b < len(result.0.Trips) ==> !result.0.Trips[b].ID.Less(result.0.Trips[a].ID))
+//@   ensures [trips-unique-by-identifier] result.0 != nil ==> (forall a int, b int :: 0 <= a && a < len(result.0.Trips) && 0 <= b && b < len(result.0.Trips) && a != b ==> result.0.Trips[a].ID != result.0.Trips[b].ID)
 //@   assigns nothing
 //@   loop 1 invariant [ctx] opts != nil && extOK(opts.Extension) && feedMessage != nil && fresh(feedMessage) && fresh(shouldSkip) && len(shouldSkip) == len(feedMessage.Entity) && feedMessage.Entity == pre(feedMessage.Entity)
 //@   loop 1 invariant [alert-texts-fresh] forall k int :: 0 <= k && k < len(feedMessage.Entity) ==> feedMessage.Entity[k].Alert == nil || feedMessage.Entity[k].Alert.DescriptionText == nil || (fresh(feedMessage.Entity[k].Alert.DescriptionText) && fresh(feedMessage.Entity[k].Alert.DescriptionText.Translation))
@@ -731,13 +734,35 @@ package gtfs
 //@   loop 2 invariant [vehicles-on-heap] forall v VehicleID :: has(vehiclesByID, v) ==> vehiclesByID[v] != nil && fresh(vehiclesByID[v]) && vehiclesByID[v].ID != nil
 //@   loop 2 invariant [idless-on-heap] forall k int :: 0 <= k && k < len(vehiclesWithNoID) ==> vehiclesWithNoID[k] != nil && fresh(vehiclesWithNoID[k])
 //@   loop 2 invariant [idless-links] forall t TripID :: has(tripIDToVehicleWithNoID, t) ==> has(tripsById, t) && tripIDToVehicleWithNoID[t] != nil && fresh(tripIDToVehicleWithNoID[t])
+//@   loop 2 invariant [trips-keyed-by-own-id] forall t TripID :: has(tripsById, t) ==> tripsById[t].ID == t
 //@   loop 3 invariant [ctx] opts != nil && extOK(opts.Extension) && feedMessage != nil && fresh(result.Alerts) && tripsById != nil && fresh(tripsById) && len(result.Trips) == 0 && cap(result.Trips) == 0 && len(result.Vehicles) == 0 && cap(result.Vehicles) == 0
 //@   loop 3 invariant [trips-on-heap] forall t TripID :: has(tripsById, t) ==> tripsById[t] != nil && fresh(tripsById[t])
 //@   loop 3 invariant [idless-links] forall t TripID :: has(tripIDToVehicleWithNoID, t) ==> has(tripsById, t) && tripIDToVehicleWithNoID[t] != nil && fresh(tripIDToVehicleWithNoID[t])
+//@   loop 3 step [entry-for-this-trip] has(tripsById, trip.ID) && tripsById[trip.ID].ID == trip.ID
+//@   loop 3 step [other-keys-keep-their-entry] forall t TripID :: t != trip.ID ==> has(tripsById, t) == athead(3, has(tripsById, t)) && tripsById[t] == athead(3, tripsById[t])
+//@   loop 3 step [other-entries-are-other-cells] forall t TripID :: t != trip.ID && has(tripsById, t) ==> tripsById[t] != tripsById[trip.ID]
+//@   loop 3 step [other-entries-untouched] forall t TripID :: t != trip.ID && has(tripsById, t) ==> tripsById[t].ID == athead(3, tripsById[t].ID)
+//@   loop 3 invariant [loop-variable-is-not-an-entry] forall t TripID :: has(tripsById, t) ==> tripsById[t] != &trip
+//@   loop 3 invariant [trips-keyed-by-own-id] forall t TripID :: has(tripsById, t) ==> tripsById[t].ID == t
 //@   loop 4 invariant [empty-lists] len(result.Trips) == 0 && cap(result.Trips) == 0 && len(result.Vehicles) == 0 && cap(result.Vehicles) == 0
 //@   loop 4 invariant [trips-on-heap] forall t TripID :: has(tripsById, t) ==> tripsById[t] != nil && fresh(tripsById[t])
 //@   loop 4 invariant [idless-links] forall t TripID :: has(tripIDToVehicleWithNoID, t) ==> has(tripsById, t) && tripIDToVehicleWithNoID[t] != nil && fresh(tripIDToVehicleWithNoID[t])
+//@   loop 4 invariant [trips-keyed-by-own-id] forall t TripID :: has(tripsById, t) ==> tripsById[t].ID == t
 //@   loop 5 invariant [trips-on-heap] (forall t TripID :: has(tripsById, t) ==> tripsById[t] != nil && fresh(tripsById[t])) && fresh(result.Trips) && len(result.Vehicles) == 0 && cap(result.Vehicles) == 0
+//@   loop 5 step [one-trip-emitted-per-key] len(result.Trips) == athead(5, len(result.Trips)) + 1 && result.Trips[len(result.Trips) - 1].ID == tripID
+//@   loop 5 step [emitted-trips-kept] forall k int :: 0 <= k && k < athead(5, len(result.Trips)) ==> result.Trips[k].ID == athead(5, result.Trips[k].ID)
+//@   loop 5 step [key-not-emitted-before] forall k int :: 0 <= k && k < athead(5, len(result.Trips)) ==> result.Trips[k].ID != tripID
+//@   loop 5 invariant [storage] sinceLoop(result.Trips) && (forall t TripID :: has(tripsById, t) ==> beforeLoop(tripsById[t]))
+//@   loop 5 invariant [trips-keyed-by-own-id] forall t TripID :: has(tripsById, t) ==> tripsById[t].ID == t
+//@   loop 5 invariant [emitted-trips-are-visited-keys] forall k int :: 0 <= k && k < len(result.Trips) ==> visited(result.Trips[k].ID)
+//@   loop 5 invariant [emitted-trips-unique] forall a int, b int :: 0 <= a && a < len(result.Trips) && 0 <= b && b < len(result.Trips) && a != b ==> result.Trips[a].ID != result.Trips[b].ID
 //@   loop 6 invariant [vehicles-on-heap] (forall v VehicleID :: has(vehiclesByID, v) ==> vehiclesByID[v] != nil && fresh(vehiclesByID[v]) && vehiclesByID[v].ID != nil) && fresh(result.Vehicles)
+//@   loop 6 invariant [storage] sinceLoop(result.Vehicles) && (forall v VehicleID :: has(vehiclesByID, v) ==> beforeLoop(vehiclesByID[v]))
+//@   loop 6 step [one-vehicle-emitted-per-key] len(result.Vehicles) == athead(6, len(result.Vehicles)) + 1 && result.Vehicles[len(result.Vehicles) - 1].ID != nil
+//@   loop 6 step [emitted-vehicles-kept] forall k int :: 0 <= k && k < athead(6, len(result.Vehicles)) ==> result.Vehicles[k].ID == athead(6, result.Vehicles[k].ID)
 //@   loop 6 invariant [ids-present] forall k int :: 0 <= k && k < len(result.Vehicles) ==> result.Vehicles[k].ID != nil
+//@   loop 6 invariant [trips-sorted] forall a int, b int :: 0 <= a && a < b && b < len(result.Trips) ==> !result.Trips[b].ID.Less(result.Trips[a].ID)
+//@   loop 6 invariant [trips-unique] forall a int, b int :: 0 <= a && a < len(result.Trips) && 0 <= b && b < len(result.Trips) && a != b ==> result.Trips[a].ID != result.Trips[b].ID
 //@   loop 7 invariant [ctx] fresh(result.Vehicles) && (forall k int :: 0 <= k && k < len(vehiclesWithNoID) ==> vehiclesWithNoID[k] != nil)
+//@   loop 7 invariant [trips-sorted] forall a int, b int :: 0 <= a && a < b && b < len(result.Trips) ==> !result.Trips[b].ID.Less(result.Trips[a].ID)
+//@   loop 7 invariant [trips-unique] forall a int, b int :: 0 <= a && a < len(result.Trips) && 0 <= b && b < len(result.Trips) && a != b ==> result.Trips[a].ID != result.Trips[b].ID
